@@ -10,7 +10,7 @@ LEVEL = "exploration"
 TECHNIQUE = "model-based generation of selection histories (every allowed plate may be picked next) with an independent policy model and per-step invariants"
 RULE = (
     "k in 1..4; 1..5 (a third of the cases 9..14) samples with 0..6 single-sample unobserved plates each (counts straddling k) and 0..2 observed plates, plate names drawn so that the plate ids of "
-    "different samples interleave; a history "
+    "different samples interleave; in a third of the cases 1..3 pairs of same-sample unobserved plates are merged in memory first; a history "
     "of up to 3k selections where each step picks ANY plate of the currently allowed set (index drawn by Hypothesis), alternately by "
     "calling filter_eligible_plates directly and through select_next_plate (batch ids as list, tuple, set, frozenset, dict keys or numpy integers) with scores making the pick the unique minimum (disallowed candidates score better still) or with all scored plates exactly tied (the selection must stay within the allowed set and the history follows it); in half the cases every selected plate is revealed in place before the next selection of the batch, as the retrospective pipeline does; plus screens "
     "with a multi-sample plate (must be refused). Non-trivial = history completes >=1 sample and opens a second. distinct = distinct case JSON."
@@ -40,6 +40,7 @@ def _case(draw):
         "samples": samples,
         "picks": draw(st.lists(st.integers(0, 50), min_size=0, max_size=3 * k)),
         "via_select": draw(st.booleans()),
+        "merges": draw(st.one_of(st.just([]), st.just([]), st.lists(st.tuples(st.integers(0, 9), st.integers(0, 9)), min_size=1, max_size=3))),
         # as the retrospective pipeline does: every selected plate is revealed (set_observed) before the next selection of the batch
         "reveal_selected": draw(st.booleans()),
         # plate ids follow the sorted plate names: a drawn key decides the order, so ids of different samples interleave
@@ -91,6 +92,21 @@ def check_case(case):
     if not sc["rows"]:
         return {"nontrivial": False, "labels": ["empty"]}
     screen = S.build_screen(sc)
+    # in some cases unobserved plates of one sample are first merged in memory (what the merge smoothers do): the policy then
+    # works on the screen as it is now - fewer plates, plate ids re-encoded
+    for a_, b_ in case.get("merges", []):
+        cands = {}
+        for p_ in screen.plates:
+            if not bool(np.all(p_.observation_mask)):
+                nm = sorted(set(str(x) for x in p_.sample_names))
+                if len(nm) == 1:
+                    cands.setdefault(nm[0], []).append(p_)
+        groups = [v for _, v in sorted(cands.items()) if len(v) >= 2]
+        if not groups:
+            break
+        g = groups[a_ % len(groups)]
+        g = sorted(g, key=lambda p_: int(p_.plate_id))
+        g[b_ % len(g)].merge(g[(b_ + 1) % len(g)])
     policy = KPerSamplePlatePolicy(k)
     rng = np.random.default_rng(0)
     keys = list(case.get("name_keys", []))
